@@ -26,6 +26,7 @@ partial def tyOfMich : Mich → Option Ty
   | .prim "pair" (a :: b :: c :: rest) an => do pure (.pair (← tyOfMich a) (← tyOfMich (.prim "pair" (b :: c :: rest) an)))
   | .prim "lambda" [a, b] _ => do pure (.lambda (← tyOfMich a) (← tyOfMich b))
   | .prim "map" [a, b] _ => do pure (.map (← tyOfMich a) (← tyOfMich b))
+  | .prim "set" [a] _ => (tyOfMich a).map .set
   | _ => none
 
 partial def tyToMich : Ty → Mich
@@ -45,6 +46,7 @@ partial def tyToMich : Ty → Mich
   | .pair a b => .prim "pair" [tyToMich a, tyToMich b] []
   | .lambda a b => .prim "lambda" [tyToMich a, tyToMich b] []
   | .map a b => .prim "map" [tyToMich a, tyToMich b] []
+  | .set a => .prim "set" [tyToMich a] []
 
 def natArg : Mich → Option Nat
   | .int v => if v ≥ 0 then some v.toNat else none
@@ -70,6 +72,7 @@ mutual
     | .pair a b, .prim "Pair" [x, y] _ => do pure (.pair (← valOfMich a x) (← valOfMich b y))
     | .pair a b, .prim "Pair" (x :: y :: z :: rest) an => do pure (.pair (← valOfMich a x) (← valOfMich b (.prim "Pair" (y :: z :: rest) an)))
     | .list t, .seq xs => (xs.mapM (valOfMich t)).map (.list t)
+    | .set t, .seq xs => (xs.mapM (valOfMich t)).map (.set t)
     | .map k v, .seq xs => (xs.mapM fun (e : Mich) => match e with
         | Mich.prim "Elt" [a, b] _ => do pure (Val.pair (← valOfMich k a) (← valOfMich v b))
         | _ => none).map (.map k v)
@@ -84,6 +87,7 @@ mutual
     | .pair a b, .prim "Pair" [x, y] _ => do pure (.pair (← valOfMich' a x) (← valOfMich' b y))
     | .pair a b, .prim "Pair" (x :: y :: z :: rest) an => do pure (.pair (← valOfMich' a x) (← valOfMich' b (.prim "Pair" (y :: z :: rest) an)))
     | .list t, .seq xs => (xs.mapM (valOfMich' t)).map (.list t)
+    | .set t, .seq xs => (xs.mapM (valOfMich' t)).map (.set t)
     | .map k v, .seq xs => (xs.mapM fun (e : Mich) => match e with
         | Mich.prim "Elt" [a, b] _ => do pure (Val.pair (← valOfMich' k a) (← valOfMich' v b))
         | _ => none).map (.map k v)
@@ -131,6 +135,11 @@ mutual
     | .prim "CONS" [] _ => some .CONS
     | .prim "SIZE" [] _ => some .SIZE
     | .prim "EMPTY_MAP" [k, v] _ => do pure (.EMPTY_MAP (← tyOfMich k) (← tyOfMich v))
+    | .prim "EMPTY_SET" [t] _ => (tyOfMich t).map .EMPTY_SET
+    | .prim "MEM" [] _ => some .MEM
+    | .prim "GET" [] _ => some .GET
+    | .prim "UPDATE" [] _ => some .UPDATE
+    | .prim "GET_AND_UPDATE" [] _ => some .GET_AND_UPDATE
     | .prim "ADD" [] _ => some .ADD
     | .prim "SUB" [] _ => some .SUB
     | .prim "MUL" [] _ => some .MUL
@@ -181,6 +190,7 @@ mutual
     | .left v _ => .prim "Left" [valToMich v] []
     | .right _ v => .prim "Right" [valToMich v] []
     | .list _ xs => .seq (xs.map valToMich)
+    | .set _ xs => .seq (xs.map valToMich)
     | .map _ _ xs => .seq (xs.map fun e => match e with
         | .pair k v => .prim "Elt" [valToMich k, valToMich v] []
         | o => valToMich o)
@@ -208,6 +218,9 @@ mutual
     | .RIGHT t => .prim "RIGHT" [tyToMich t] [] | .NIL t => .prim "NIL" [tyToMich t] []
     | .CONS => .prim "CONS" [] [] | .SIZE => .prim "SIZE" [] []
     | .EMPTY_MAP k v => .prim "EMPTY_MAP" [tyToMich k, tyToMich v] []
+    | .EMPTY_SET t => .prim "EMPTY_SET" [tyToMich t] []
+    | .MEM => .prim "MEM" [] [] | .GET => .prim "GET" [] [] | .UPDATE => .prim "UPDATE" [] []
+    | .GET_AND_UPDATE => .prim "GET_AND_UPDATE" [] []
     | .ADD => .prim "ADD" [] [] | .SUB => .prim "SUB" [] [] | .MUL => .prim "MUL" [] []
     | .EDIV => .prim "EDIV" [] [] | .LSL => .prim "LSL" [] [] | .LSR => .prim "LSR" [] [] | .SUB_MUTEZ => .prim "SUB_MUTEZ" [] []
     | .NEG => .prim "NEG" [] [] | .ABS => .prim "ABS" [] [] | .ISNAT => .prim "ISNAT" [] []
